@@ -289,6 +289,7 @@ Section RoundTrip.
     else if l_enumerate cfg && negb iv then None
     else let total := header_size (w_order w) + body_size cfg (F wm) in
          if length (F wm) <? total then None
+         else if negb iv && negb (Nat.eqb (length (F wm)) total) then None
          else if iv then
            let ws := skipn total (F wm) in
            if negb (list_eqb (firstn 6 ws) unk6) then None
@@ -342,9 +343,9 @@ Section RoundTrip.
       replace (length (body_of w iv ++ (if iv then w_words w else [])) <? length (body_of w iv)) with false
         by (symmetry; apply Nat.ltb_ge; rewrite app_length; lia).
       destruct iv.
-      + rewrite (Hu eq_refl), list_eqb_refl. cbn [negb andb].
+      + cbn [negb andb orb]. rewrite (Hu eq_refl), list_eqb_refl. cbn [negb andb].
         destruct (l_enumerate cfg) eqn:E; [rewrite (Hw eq_refl eq_refl)|]; reflexivity.
-      + destruct (l_enumerate cfg) eqn:E; [specialize (He eq_refl); discriminate|]. reflexivity.
+      + rewrite app_nil_r, Nat.eqb_refl. cbn [negb andb orb]. destruct (l_enumerate cfg) eqn:E; [specialize (He eq_refl); discriminate|]. reflexivity.
     - unfold body_of. rewrite (skipn_app_exact _ _ _ Hh). apply firstn_app_exact. reflexivity.
     - unfold body_of. rewrite app_assoc, app_assoc.
       rewrite (skipn_app_exact ((_ ++ w_vocab w) ++ repeat zero (w_pad w)) (w_search w))
